@@ -4,6 +4,7 @@
 From Coq Require Import NArith ZArith List Bool.
 From Srtp Require Import Util Constants KeyLimit Rdb Rdbx Icm World Stream Rtp Rtcp Session.
 From Srtp.Crypto Require Import AES SHA1 HMAC.
+From Srtp.Spec Require Rfc3711.
 Import ListNotations.
 Local Open Scope Z_scope.
 
@@ -270,6 +271,16 @@ Definition run_api (m : mstate) (code : Z) (a : list Z) (b : list bytes) : mstat
     (set_ses m (ms_ses m) {| h_live := h_live h; h_att := 0; h_fail := 0; h_frees := 0; h_dirty := h_dirty h |},
      [OZ (h_live h); OZ (h_att h); OZ (h_frees h); OZ (h_dirty h)])
   else if code =? 74 then (m, [])
+  else if (code =? 70) || (code =? 71) then
+    (* spec_rtp / spec_rtcp  conf auth tag roc|index | mkey msalt mki xtn_ids pkt : the RFC specification's packet *)
+    let q := {| Rfc3711.rp_mkey := nth 0 b []; Rfc3711.rp_msalt := nth 1 b [];
+                Rfc3711.rp_conf := zb (arg a 0); Rfc3711.rp_auth := zb (arg a 1); Rfc3711.rp_tag := zn (arg a 2);
+                Rfc3711.rp_mki := nth 2 b []; Rfc3711.rp_xtn_ids := nth 3 b [] |} in
+    (m, [OZ 0; OZ 0; OB (if code =? 70 then Rfc3711.srtp_protect q (Z.to_N (arg a 3)) (nth 4 b [])
+                         else Rfc3711.srtcp_protect q (Z.to_N (arg a 3)) (nth 4 b []))])
+  else if code =? 72 then
+    (* spec_kdf label n | mkey msalt *)
+    (m, [OZ 0; OZ 0; OB (Rfc3711.kdf (nth 0 b []) (nth 1 b []) (Z.to_N (arg a 0)) (zn (arg a 1)))])
   else (m, [OZ (-1)]).
 
 Definition run_op (m : mstate) (code : Z) (a : list Z) (b : list bytes) : mstate * list outv :=
